@@ -59,6 +59,7 @@ def run(chk):
 
 
 MUTANTS = [
+    ('environment reset once per step', 'yastn/tn/mps/_tdvp.py', '        routine = lambda t, dt0, env: _tdvp_sweep_2site_(psi, Ht(t), dt0, u, et(env), opts_expmv, opts_svd, normalize, subtract_E, precompute)', '        routine = lambda t, dt0, env: _tdvp_sweep_2site_(psi, Ht(t), dt0, u, env, opts_expmv, opts_svd, normalize, subtract_E, precompute)', 'T3'),
     ('energy shift on the fixed start tensor', 'yastn/tn/mps/_tdvp.py', '        f = lambda x: env.Heff2(x, bd) - E0 * x', '        f = lambda x: env.Heff2(x, bd) - E0 * AA', 'T5'),
     ('composition constant as a wrong expression', 'yastn/tn/mps/_tdvp.py', '                s2 = 0.41449077179437573714', '                s2 = 1 / (4 - 4 ** 1 / 3)', 'T2'),
     ("flip sign of backward step", "yastn/tn/mps/_tdvp.py",
